@@ -396,12 +396,13 @@ class FunctionReport:
         self.error = None
         self.raise_paths = {}
         self.return_paths = 0
+        self.live_return_paths = 0
         self.has_ensures = False
         self.feas_unknown = 0
 
     def as_dict(self):
         return {'name': self.name, 'file': self.file, 'lines': [self.start, self.end], 'sha256': self.sha256,
-                'paths': self.paths, 'feasible_end_paths': self.feasible_ends, 'return_paths': self.return_paths, 'has_ensures': self.has_ensures, 'out_of_subset': self.oos,
+                'paths': self.paths, 'feasible_end_paths': self.feasible_ends, 'return_paths': self.return_paths, 'live_return_paths': self.live_return_paths, 'has_ensures': self.has_ensures, 'out_of_subset': self.oos,
                 'secs': round(self.secs, 3), 'error': self.error,
                 'obligations': [v.as_dict() for v in self.verdicts]}
 
@@ -444,7 +445,20 @@ def prove_function(world, make_models, contract, timeout_ms=None, arg_terms_out=
 
         outcome, val = 'return', None
         try:
-            val = I.run_function(c.fn, [], dict(args), contract=c, frame_hook=hook)
+            if c.nested:
+                import ast as _ast
+                from .engine import function_ast
+                parent = function_ast(c.fn)['node']
+                inner = [n for n in _ast.walk(parent) if isinstance(n, _ast.FunctionDef) and n.name == c.nested and n is not parent]
+                if len(inner) != 1:
+                    raise OutOfSubset('nested function %s not found exactly once in %s' % (c.nested, c.name))
+                fobj = getattr(c.fn, '__func__', c.fn)
+                clo = VClosure(inner[0], dict(args), fobj.__globals__, fobj.__qualname__ + '.' + c.nested)
+                val = I.call_closure(clo, [args[a.arg] for a in inner[0].args.args], {})
+            else:
+                val = I.run_function(c.fn, [], dict(args), contract=c, frame_hook=hook)
+            if c.epilogue is not None:
+                c.epilogue(I)
         except PyRaise as pr:
             outcome, val = 'raise', pr.exc
         cxe = Cx(ctx, args, ctx.heap0, ctx.heap, val if outcome == 'return' else None,
@@ -502,6 +516,18 @@ def prove_function(world, make_models, contract, timeout_ms=None, arg_terms_out=
             rep.feasible_ends += 1
             if r.outcome == 'return':
                 rep.return_paths += 1
+                # vacuity guard: is at least one normally returning path satisfiable?  (an assumption that contradicts a
+                # callee's postcondition makes every obligation after it hold trivially)
+                if rep.live_return_paths == 0:
+                    try:
+                        sv_ = z3.Solver()
+                        sv_.set('timeout', 3000)
+                        for x_ in r.pc:
+                            sv_.add(x_)
+                        if sv_.check() != z3.unsat:
+                            rep.live_return_paths += 1
+                    except z3.Z3Exception:
+                        rep.live_return_paths += 1
             if r.outcome == 'raise':
                 rep.raise_paths[r.value.cls.__name__] = rep.raise_paths.get(r.value.cls.__name__, 0) + 1
         for o in r.obligations:
